@@ -426,3 +426,62 @@ func (la *lockAnalysis) lockBalance(o *Obligation, f *ssa.Function) {
 		o.Fail(in.Pos(), "%s unlocks a mutex that is not held on every path to this point", fname(f))
 	}
 }
+
+// holdsAtOriginSite: the accessed object is named through the parameters of private helpers up to a value of a
+// calling function (a method of an inner struct reached as b.ring.segments()): the lock base.field is held at
+// the call in that function through which the access is reached (single call sites only).
+func (la *lockAnalysis) holdsAtOriginSite(in ssa.Instruction, base ssa.Value, field string, needW bool) bool {
+	root := origin(base)
+	for d := 0; d < 8; d++ {
+		switch x := root.(type) {
+		case *ssa.FieldAddr:
+			root = origin(x.X)
+			continue
+		case *ssa.UnOp:
+			root = origin(x.X)
+			continue
+		case *ssa.Field:
+			root = origin(x.X)
+			continue
+		}
+		break
+	}
+	var rf *ssa.Function
+	switch x := root.(type) {
+	case *ssa.Parameter:
+		rf = x.Parent()
+	case ssa.Instruction:
+		rf = x.Parent()
+	}
+	f := in.Parent()
+	if rf == nil || rf == f || curSites == nil {
+		return false
+	}
+	path := accessPath(base) + "." + field
+	var up func(g *ssa.Function, d int) (found, held bool)
+	up = func(g *ssa.Function, d int) (found, held bool) {
+		held = true
+		if d > 6 || !isPrivateHelper(g) {
+			return false, false
+		}
+		for _, site := range curSites.sites[g] {
+			h := site.Parent()
+			if h == rf {
+				found = true
+				if !la.holds(site, path, needW) {
+					held = false
+				}
+				continue
+			}
+			if f2, h2 := up(h, d+1); f2 {
+				found = true
+				if !h2 {
+					held = false
+				}
+			}
+		}
+		return found, held
+	}
+	found, held := up(f, 0)
+	return found && held
+}
